@@ -26,6 +26,7 @@ PROP = "C19"
 CORPUS = lib.VERIF / "harness" / "corpus" / "C19.json"
 
 PRELUDE = """import os, math, enum
+from types import NoneType
 class A: pass
 class C: pass
 class E(enum.Enum):
@@ -43,6 +44,9 @@ STRINGS = ['""', '"a"', '"ab"', 'b""', 'b"a"', 'b"ab"']
 TUPLES = ["()", "(1,)", '(1, "a")', "(1, 2, 3)", "((1,), 2)", '(None, b"a", 1.5, "x")']
 OTHERS = ["None", "E.a", "E.b", "IE.x", "IE.y", "int", "str", "bool", "A", "E", "IE", "os", "math"]
 OPERANDS = NUMBERS + STRINGS + TUPLES + OTHERS
+# thorough tier: a larger universe
+EXTRA = ["10", "-7", "3.0", "-0.0", "2j", "1e308", '"abc"', '"A b"', 'b"xyz"', "(0, 1)", '("a", "b")', "((), ())", "(1.5, None)",
+         "float", "tuple", "bytes", "complex", "type", "object", "C", "enum", "NoneType", "Ellipsis"]
 
 BINOPS = {
     "+": ("__add__", "__radd__"),
@@ -62,7 +66,7 @@ BINOPS = {
 UNOPS = {"-": "__neg__", "+": "__pos__", "~": "__invert__"}
 
 INDICES = ["0", "1", "2", "3", "-1", "-2", "-3", "-4", "-5", "5", "True", "None", '"a"', "1.5", "(0,)"]
-SLICES = ["1:", ":1", "::2", ":-1", "::-1", "-2:", "1:3", "3:0:-1", "-1::-2", ":0", "5:", ":-5", "::0", "slice(0, 1)", "slice(None, None, -1)"]
+SLICES = ["1:", ":1", "::2", ":-1", "::-1", "-2:", "1:3", "3:0:-1", "-1::-2", ":0", "5:", ":-5", "::0", "-4:-1", "::-3"]
 
 ATTR_POOL = [
     "real", "imag", "numerator", "upper", "uper", "name", "value", "_name_", "_value_", "path", "ptah", "a", "b", "x", "zz",
@@ -118,6 +122,8 @@ def norm_case(c):
 def gen_cases(rng, tier):
     cases = []
     quick = tier == "quick"
+    OPERANDS = globals()["OPERANDS"] + ([] if quick else EXTRA)
+    TUPLES = [o for o in OPERANDS if o.startswith("(")]
     # unary: exhaustive
     for a in OPERANDS:
         for u in UNOPS:
@@ -126,7 +132,7 @@ def gen_cases(rng, tier):
     # binary: exhaustive in thorough, stratified sample in quick
     pairs = [(a, b) for a in OPERANDS for b in OPERANDS]
     for op in BINOPS:
-        ps = pairs if not quick else rng.sample(pairs, 260)
+        ps = pairs
         for a, b in ps:
             if op == "%" and a[:1] in ('"', "b") and a not in ("bool",):
                 continue  # str/bytes % x is the format operator: property C17
@@ -135,7 +141,7 @@ def gen_cases(rng, tier):
     for a in OPERANDS:
         idx = INDICES + SLICES
         if quick and a not in TUPLES:
-            idx = rng.sample(idx, 8)
+            idx = rng.sample(idx, 14)
         for i in idx:
             cases.append(("sub", a, i))
     # attributes: names that exist on the real object, near-misses, and a fixed pool
@@ -144,11 +150,11 @@ def gen_cases(rng, tier):
     for a in OPERANDS:
         obj = eval(a, ns)
         have = sorted(n for n in dir(obj) if n.isidentifier())
-        names = set(rng.sample(have, min(len(have), 6 if quick else 25)))
-        for n in rng.sample(have, min(len(have), 3 if quick else 10)):
+        names = set(rng.sample(have, min(len(have), 14 if quick else 40)))
+        for n in rng.sample(have, min(len(have), 8 if quick else 20)):
             j = rng.randrange(len(n))
             names.add(n[:j] + n[j + 1 :] if len(n) > 1 else n + "q")  # drop one character
-        pool = ATTR_POOL if not quick else rng.sample(ATTR_POOL, 14)
+        pool = ATTR_POOL if not quick else rng.sample(ATTR_POOL, 24)
         names.update(pool)
         for n in sorted(names):
             if keyword.iskeyword(n):
@@ -156,7 +162,7 @@ def gen_cases(rng, tier):
             if n.isidentifier() and not n.startswith("__") or n in ATTR_POOL:
                 cases.append(("attr", a, n))
     # typed sequences built by tuple / list displays
-    n_seq = 220 if quick else 2500
+    n_seq = 900 if quick else 6000
     for _ in range(n_seq):
         n = rng.choice([0, 1, 2, 2, 3, 3, 4, 5])
         nmany = rng.choice([0, 0, 1, 1, 1, 2])
@@ -170,7 +176,7 @@ def gen_cases(rng, tier):
             key = rng.choice(SLICES[:12])
         cases.append(("seq", kind, tuple(ms), key))
     # small exhaustive family around the repaired offset: one unpacked member, every position, every key
-    for total in (2, 3, 4) if quick else (1, 2, 3, 4, 5, 6):
+    for total in (1, 2, 3, 4, 5) if quick else (1, 2, 3, 4, 5, 6, 7):
         for pos in range(total):
             ms = tuple((i == pos, MEMBER_CLASSES[i % len(MEMBER_CLASSES)]) for i in range(total))
             for key in range(-total - 1, total + 1):
@@ -620,7 +626,7 @@ def should_diag(c, rec):
     exc = rec["oracle"].get("exc")
     if exc in ("TypeError", "AttributeError"):
         return True
-    if exc == "IndexError" and c[0] == "sub" and c[1] in TUPLES:
+    if exc == "IndexError" and c[0] == "sub" and c[1].startswith("("):
         return True
     return False
 
